@@ -358,3 +358,26 @@ func VH_C11_remove_evict() {
 	vhCoherent(c, w, "-after-merge")
 	rt.Cover("removed")
 }
+
+// ---- exported fixture for harnesses of other packages (api) ----
+
+type VHFixture struct {
+	Repo  *vrepo.Repo
+	Alice entity.Id
+	Bob   entity.Id
+	Bug   entity.Id
+	w     *vhWorld
+}
+
+// VHNewFixture: a model repository with the identities alice and bob and one bug
+// (create + one comment) by bob; clocks in sync.
+func VHNewFixture() *VHFixture {
+	w := vhNewWorld()
+	id, h := w.storeBug(0, w.bob, "t0", 1)
+	w.r.SetRef("refs/bugs/"+id.String(), h)
+	w.syncClocks()
+	return &VHFixture{Repo: w.r, Alice: w.alice.Id(), Bob: w.bob.Id(), Bug: id, w: w}
+}
+
+// VHRebuild builds a fresh cache from the fixture's git data.
+func (f *VHFixture) VHRebuild() *RepoCache { return vhRebuild(f.w) }
